@@ -762,18 +762,18 @@ theorem body_rect (ts : Tables) (st : Stmt) (outs : List Out) (hr : AllRect ts) 
         intro o ho
         simp at ho; subst ho
         exact delete_rect _ t t' n (getCopy_rect ts tbl t hr hg) hi
-  | updateMulti targets froms cond sets =>
+  | updateMulti targets froms join cond sets =>
     simp only [body] at hk
-    cases hj : joinedView ts froms cond with
+    cases hj : joinedView ts froms join cond with
     | error e => simp [hj] at hk
     | ok view =>
       simp only [hj] at hk
       split at hk
       · cases hk
       · exact updateTargets_rect ts froms _ sets hr targets outs hk
-  | deleteMulti targets froms cond =>
+  | deleteMulti targets froms join cond =>
     simp only [body] at hk
-    cases hj : joinedView ts froms cond with
+    cases hj : joinedView ts froms join cond with
     | error e => simp [hj] at hk
     | ok view =>
       simp only [hj] at hk
@@ -872,11 +872,11 @@ theorem getCopy_lookup (ts : Tables) (n : String) (t : Table) (h : getCopy ts n 
   | none => simp [hl] at h
   | some t0 => simp only [hl] at h; cases h; rfl
 
-theorem updateTargets_publish (ts : Tables) (froms : List String) (cond : List Row → Except Err Tern)
-    (view : List JRow) (sets : List (String × SetItem (List Row))) (hv : viewOf ts froms cond = view) :
+theorem updateTargets_publish (ts : Tables) (froms : List String) (join : Join) (cond : List Row → Except Err Tern)
+    (view : List JRow) (sets : List (String × SetItem (List Row))) (hv : viewOf ts froms join cond = view) :
     ∀ (targets : List String) (outs : List Out) (acc : Tables),
     updateTargets ts froms view sets targets = .ok outs →
-    publish acc outs = targets.foldl (updStepSpec ts froms cond sets) acc := by
+    publish acc outs = targets.foldl (updStepSpec ts froms join cond sets) acc := by
   intro targets
   induction targets with
   | nil => intro outs acc h; simp [updateTargets] at h; subst h; rfl
@@ -900,7 +900,7 @@ theorem updateTargets_publish (ts : Tables) (froms : List String) (cond : List R
             simp only [hrest] at h
             cases h
             obtain ⟨u1, u2, _, _⟩ := updateCore_ok _ _ t t' n hu
-            have hstep : updStepSpec ts froms cond sets acc tn = setTable acc tn t' := by
+            have hstep : updStepSpec ts froms join cond sets acc tn = setTable acc tn t' := by
               unfold updStepSpec
               simp only [getCopy_lookup ts tn t hg, hp]
               congr 1
@@ -911,11 +911,11 @@ theorem updateTargets_publish (ts : Tables) (froms : List String) (cond : List R
             rw [hstep]
             exact ih outs' _ hrest
 
-theorem deleteTargets_publish (ts : Tables) (froms : List String) (cond : List Row → Except Err Tern)
-    (view : List JRow) (hv : viewOf ts froms cond = view) :
+theorem deleteTargets_publish (ts : Tables) (froms : List String) (join : Join) (cond : List Row → Except Err Tern)
+    (view : List JRow) (hv : viewOf ts froms join cond = view) :
     ∀ (targets : List String) (outs : List Out) (acc : Tables),
     deleteTargets ts froms view targets = .ok outs →
-    publish acc outs = targets.foldl (delStepSpec ts froms cond) acc := by
+    publish acc outs = targets.foldl (delStepSpec ts froms join cond) acc := by
   intro targets
   induction targets with
   | nil => intro outs acc h; simp [deleteTargets] at h; subst h; rfl
@@ -935,8 +935,8 @@ theorem deleteTargets_publish (ts : Tables) (froms : List String) (cond : List R
         | ok outs' =>
           simp only [hrest] at h
           cases h
-          have hstep : delStepSpec ts froms cond acc tn =
-              setTable acc tn (deleteCore (List.map (fun (jr : JRow) => (jr[p]?).map Prod.fst) view) t).1 := by
+          have hstep : delStepSpec ts froms join cond acc tn =
+              setTable acc tn (deleteCore (List.map (jid p) view) t).1 := by
             unfold delStepSpec
             simp only [getCopy_lookup ts tn t hg, hp]
             rw [hv]
@@ -1043,26 +1043,26 @@ theorem stmt_spec (ts : Tables) (st : Stmt) (outs : List Out) (hk : body ts st =
         simp only [publish, specTables, getCopy_lookup ts tbl t hg, Bool.false_eq_true, if_false]
         congr 1
         exact table_eq _ _ h1 h2
-  | updateMulti targets froms cond sets =>
+  | updateMulti targets froms join cond sets =>
     simp only [body] at hk
-    cases hj : joinedView ts froms cond with
+    cases hj : joinedView ts froms join cond with
     | error e => simp [hj] at hk
     | ok view =>
       simp only [hj] at hk
       split at hk
       · cases hk
-      · have hv : viewOf ts froms cond = view.map Prod.snd := by simp [viewOf, hj]
+      · have hv : viewOf ts froms join cond = view.map Prod.snd := by simp [viewOf, hj]
         simp only [specTables]
-        exact updateTargets_publish ts froms cond _ sets hv targets outs ts hk
-  | deleteMulti targets froms cond =>
+        exact updateTargets_publish ts froms join cond _ sets hv targets outs ts hk
+  | deleteMulti targets froms join cond =>
     simp only [body] at hk
-    cases hj : joinedView ts froms cond with
+    cases hj : joinedView ts froms join cond with
     | error e => simp [hj] at hk
     | ok view =>
       simp only [hj] at hk
-      have hv : viewOf ts froms cond = view.map Prod.snd := by simp [viewOf, hj]
+      have hv : viewOf ts froms join cond = view.map Prod.snd := by simp [viewOf, hj]
       simp only [specTables]
-      exact deleteTargets_publish ts froms cond _ hv targets outs ts hk
+      exact deleteTargets_publish ts froms join cond _ hv targets outs ts hk
   | addCols tbl pos cols =>
     simp only [body] at hk
     cases hg : getCopy ts tbl with
@@ -1251,6 +1251,118 @@ theorem gen_adjacent_big_keys_differ (f g : FVal) (s t : Bytes) :
     Csvq.Gen.sortEquiv (SortVal.int 9007199254740993 f s).toSV (SortVal.int 9007199254740992 g t).toSV = false := by
   rw [gen_integer_keys_exact]; decide
 
+/-! ## multi-table DELETE / UPDATE over OUTER joins
+
+  `DELETE b FROM a LEFT JOIN b ON …`: a record of `a` without partner is joined with a NULL-padded record of `b`,
+  whose internal record id is NULL too (`jid … = none`).  Such joined records may stand anywhere in the view —
+  first, between matched ones, last. -/
+
+/-- a joined record without an id for the target is passed over wherever it stands: the ids collected are those of
+    the other records, in the same order (Delete's `continue`, not `break`) -/
+theorem collectIds_padded_anywhere (l₁ l₂ : List (Option Nat)) (acc : List Nat) :
+    collectIds (l₁ ++ none :: l₂) acc = collectIds (l₁ ++ l₂) acc := by
+  induction l₁ generalizing acc with
+  | nil => simp [collectIds]
+  | cons o rest ih =>
+    cases o with
+    | none => simp only [List.cons_append, collectIds]; exact ih acc
+    | some i => simp only [List.cons_append, collectIds]; exact ih _
+
+/-- multi-table DELETE: the new table and the reported count do not depend on padded records, whatever their position -/
+theorem delete_passes_over_padded_records (l₁ l₂ : List (Option Nat)) (t : Table) :
+    deleteCore (l₁ ++ none :: l₂) t = deleteCore (l₁ ++ l₂) t := by
+  simp [deleteCore, collectIds_padded_anywhere]
+
+/-- DELETE through ANY joined view (cross, inner, outer): record `j` of the target is removed iff some joined record
+    carries its id; the others keep their order; the count is the number of distinct ids -/
+theorem delete_view_spec (ids : List (Option Nat)) (t : Table) :
+    (deleteCore ids t).1.header = t.header ∧
+    (deleteCore ids t).1.rows =
+      ((t.rows.zip (List.range t.rows.length)).filter (fun q => !decide (some q.2 ∈ ids))).map Prod.fst ∧
+    (∀ x, x ∈ collectIds ids [] ↔ some x ∈ ids) ∧ (collectIds ids []).Nodup ∧
+    (deleteCore ids t).2 = (collectIds ids []).length := by
+  have hm : ∀ x, x ∈ collectIds ids [] ↔ some x ∈ ids := by
+    intro x
+    have := mem_collectIds ids [] x
+    simpa using this
+  refine ⟨rfl, ?_, hm, nodup_collectIds ids [] List.nodup_nil, rfl⟩
+  show removeIdx (collectIds ids []) t.rows 0 = _
+  rw [removeIdx_eq_filter_zip]
+  congr 1
+  apply List.filter_congr
+  intro q _
+  by_cases h : some q.2 ∈ ids
+  · simp [h, (hm q.2).2 h]
+  · have : q.2 ∉ collectIds ids [] := fun hc => h ((hm q.2).1 hc)
+    simp [h, this]
+
+/-- multi-table UPDATE: a SET item of a target that is NULL-padded in the joined record is refused ("value ambiguous"),
+    after its value was evaluated and its column found — the statement fails, nothing is published (C08) -/
+theorem update_refuses_padded_target {ρ : Type} (h : List String) (ctx : ρ) (s : SetItem ρ) (ss : List (SetItem ρ))
+    (st : UpdSt) (v : Cell) (j : Nat) (hv : s.expr ctx = .ok v) (hj : colIndex h s.field = .ok j) :
+    (applySets h none ctx (s :: ss) st).toOption = none ∧
+    (match applySets h none ctx (s :: ss) st with | .error e => e.code | .ok _ => 0) = 12202 := by
+  simp [applySets, hv, hj, Except.toOption, Err.code]
+
+theorem partners_subset (on : Row → Except Err Tern) : ∀ (inner ms : List (Option Nat × Row)),
+    partners on inner = .ok ms → ∀ j ∈ ms, j ∈ inner := by
+  intro inner
+  induction inner with
+  | nil => intro ms h j hj; simp [partners] at h; subst h; cases hj
+  | cons x xs ih =>
+    intro ms h j hj
+    unfold partners at h
+    cases hc : on x.2 with
+    | error e => simp [hc] at h
+    | ok c =>
+      simp only [hc] at h
+      cases hr : partners on xs with
+      | error e => simp [hr] at h
+      | ok ms' =>
+        simp only [hr] at h
+        cases h
+        by_cases ht : isT c = true
+        · simp only [ht, if_true] at hj
+          cases hj with
+          | head => exact List.mem_cons_self
+          | tail _ hm => exact List.mem_cons_of_mem _ (ih ms' hr j hm)
+        · simp only [ht] at hj
+          exact List.mem_cons_of_mem _ (ih ms' hr j hj)
+
+/-- outer join: EVERY record of the preserved side is in the joined view — with a partner of the other table, or once
+    with the padded record (which has no id) -/
+theorem outer_join_keeps_preserved_side (on : Row → Row → Except Err Tern)
+    (mk : (Option Nat × Row) → (Option Nat × Row) → JRow) (pad : Option Nat × Row) (inner : List (Option Nat × Row)) :
+    ∀ (outerL : List (Option Nat × Row)) (recs : List JRow), outerLoop on mk pad inner outerL = .ok recs →
+    ∀ o ∈ outerL, (∃ j ∈ inner, mk o j ∈ recs) ∨ mk o pad ∈ recs := by
+  intro outerL
+  induction outerL with
+  | nil => intro recs _ o ho; cases ho
+  | cons x xs ih =>
+    intro recs h o ho
+    unfold outerLoop at h
+    cases hp : partners (on x.2) inner with
+    | error e => simp [hp] at h
+    | ok ms =>
+      simp only [hp] at h
+      cases hr : outerLoop on mk pad inner xs with
+      | error e => simp [hr] at h
+      | ok rest =>
+        simp only [hr] at h
+        cases h
+        cases ho with
+        | head =>
+          cases ms with
+          | nil => right; simp
+          | cons m ms' =>
+            left
+            refine ⟨m, partners_subset _ _ _ hp m List.mem_cons_self, ?_⟩
+            simp
+        | tail _ hm =>
+          rcases ih rest hr o hm with ⟨j, hj, hmem⟩ | hmem
+          · left; exact ⟨j, hj, List.mem_append_right _ hmem⟩
+          · right; exact List.mem_append_right _ hmem
+
 /-! ## non-vacuity: the hypotheses are satisfiable and the operations do something -/
 
 def ints (t : Table) : List (List (Option Int)) := t.rows.map fun r => r.map fun c => c.int?
@@ -1307,5 +1419,42 @@ example : intsOf (dropColumnsImpl ["a", "a"] exT) = some (["id", "b"], [[some 0,
 example : (renameColumnImpl "a" "z" exT).toOption.map (·.header) = some ["id", "z", "b"] := by decide
 example : errOf (renameColumnImpl "a" "b" exT) = some 10104 := by decide
 example : exT.Rect := by intro r hr; simp [exT] at hr; rcases hr with h | h | h <;> subst h <;> rfl
+
+/-! ### outer joins: `a(id,x)` = ids 0..2, `b(id,k)` with k = 9, 2, 0 — `a LEFT JOIN b ON a.id = b.k` leaves record 1 of `a`
+    without partner IN THE MIDDLE of the view; `a RIGHT JOIN b` leaves record 0 of `b` without partner FIRST -/
+def ojA : Table := { header := ["id", "x"], rows := [[cex 0, cex 10], [cex 1, cex 11], [cex 2, cex 12]] }
+def ojB : Table := { header := ["id", "k"], rows := [[cex 0, cex 9], [cex 1, cex 2], [cex 2, cex 0]] }
+def ojTs : Tables := [("a", ojA), ("b", ojB)]
+/-- `a.id = b.k` -/
+def ojOn : List Row → Except Err Tern := fun rows =>
+  match rows with
+  | [ra, rb] => (match (ra[0]?).bind (·.int?), (rb[1]?).bind (·.int?) with
+    | some i, some k => .ok (if i = k then .T else .F)
+    | _, _ => .ok .U)
+  | _ => .error .fieldNotExist
+def ojTrue : List Row → Except Err Tern := fun _ => .ok .T
+/-- names of the published tables, their records (all tables, one after the other), their counts -/
+def outsOf (r : Except Err (List Out)) : Option (List String × List (List (Option Int)) × List Nat) :=
+  match r with
+  | .ok outs => some (outs.map (·.name), outs.flatMap (fun o => ints o.table), outs.map (·.count))
+  | .error _ => none
+-- the ids of `b` along the LEFT join: partner, PADDED, partner
+example : ((joinedView ojTs ["a", "b"] (.outer .left ojOn) ojTrue).toOption.map fun v => v.map fun x => (jid 0 x.2, jid 1 x.2)) =
+    some [(some 0, some 2), (some 1, none), (some 2, some 1)] := by decide
+-- RIGHT: the unmatched record of `b` comes FIRST; FULL: LEFT, then the unmatched records of `b`
+example : ((joinedView ojTs ["a", "b"] (.outer .right ojOn) ojTrue).toOption.map fun v => v.map fun x => (jid 0 x.2, jid 1 x.2)) =
+    some [(none, some 0), (some 2, some 1), (some 0, some 2)] := by decide
+example : ((joinedView ojTs ["a", "b"] (.outer .full ojOn) ojTrue).toOption.map fun v => v.map fun x => (jid 0 x.2, jid 1 x.2)) =
+    some [(some 0, some 2), (some 1, none), (some 2, some 1), (none, some 0)] := by decide
+-- DELETE b FROM a LEFT JOIN b: both matched records of `b` go, although a padded record stands between them
+example : outsOf (body ojTs (.deleteMulti ["b"] ["a", "b"] (.outer .left ojOn) ojTrue)) =
+    some (["b"], [[some 0, some 9]], [2]) := by decide
+-- DELETE a, b FROM a RIGHT JOIN b: the padded record comes first; two records of each table go
+example : outsOf (body ojTs (.deleteMulti ["a", "b"] ["a", "b"] (.outer .right ojOn) ojTrue)) =
+    some (["a", "b"], [[some 1, some 11]], [2, 3]) := by decide
+-- UPDATE b SET b.k = 7 FROM a LEFT JOIN b: refused at the padded record (12202); with the target on the preserved side it succeeds
+example : errOf (body ojTs (.updateMulti ["b"] ["a", "b"] (.outer .left ojOn) ojTrue [("b", ⟨"k", fun _ => .ok (cex 7)⟩)])) = some 12202 := by decide
+example : outsOf (body ojTs (.updateMulti ["a"] ["a", "b"] (.outer .left ojOn) ojTrue [("a", ⟨"x", fun _ => .ok (cex 7)⟩)])) =
+    some (["a"], [[some 0, some 7], [some 1, some 7], [some 2, some 7]], [3]) := by decide
 
 end Csvq.C05
